@@ -579,7 +579,7 @@ class SizeInterp:
         if k == "Cast":
             return self.interp(n["e"], st, depth)
         if k == "Closure":
-            return [(UNK, st)]
+            return [(("closure", n.get("d")), st)]
         return [(self.fresh(F.ty(n), "val", st, True, True) if self.tykind(F.ty(n)) else UNK, st)]
 
     def interp_list(self, nodes, st, depth, build):
@@ -1224,6 +1224,32 @@ class SizeInterp:
         impl_self = n.get("is", "") or ""
         rs = n.get("rs", "") or ""
         path = n.get("f", "") or ""
+        if name in ("call", "call_once", "call_mut") and vs and a0[0] == "closure" and depth < self.inline_depth + 2:
+            # a local closure: its body is interpreted in the current frame (captured variables are the caller's locals)
+            c = F.by_path.get(a0[1])
+            if c is not None:
+                params = [p_ for p_ in c["params"] if p_.get("p") and not (p_["p"].get("k") == "Bind" and p_["p"].get("n") in (None,) )]
+                args = vs[1][1] if len(vs) > 1 and vs[1][0] == "tuple" else list(vs[1:])
+                # the first parameter of a closure body is the environment
+                real = [p_ for p_ in c["params"] if p_.get("p")]
+                if len(real) == len(args) + 1:
+                    real = real[1:]
+                if len(real) == len(args):
+                    for p_, v in zip(real, args):
+                        self.apply_pat(p_["p"], v if v[0] not in ("unit", "bool", "lit") else UNK, st)
+                    outs = []
+                    try:
+                        for v, s2 in self.interp(c["body"], st, depth + 1):
+                            if s2.dead and s2.ret is not None and s2.ret != ("loop-exit",):
+                                v = s2.ret
+                                s2.dead, s2.ret = False, None
+                            elif s2.dead:
+                                continue
+                            outs.append((v, s2))
+                    except Unsupported:
+                        outs = []
+                    if outs:
+                        return outs
         if name in TRANSPARENT and vs:
             return [(a0, st)]
         if name == "new" and (impl_self.startswith("std::boxed::Box") or "Box" in path.split("::")[-2:][0]) and vs:
